@@ -234,12 +234,35 @@ func PoolGet(p *sync.Pool, site uint32) any {
 		if i != n-1 {
 			s.Counters["pool_reuse_not_newest"]++
 		}
+		// an object that was put back twice comes out twice: if the first taker still has it, two owners
+		// now share what each of them takes for its own
+		if isPointer(v) {
+			if _, out := s.poolOut[v]; out {
+				s.Counters["pool_object_with_two_owners"]++
+				s.failLocked("sim.pooled-object-has-two-owners", fmt.Sprintf("a %T that one task took from its sync.Pool and has not put back was handed to a second taker: it had been put into the pool twice, both owners now work on the same object", v))
+			}
+		}
+	}
+	if v != nil && isPointer(v) {
+		if s.poolOut == nil {
+			s.poolOut = map[any]struct{}{}
+		}
+		s.poolOut[v] = struct{}{}
 	}
 	s.mu.Unlock()
 	if v == nil && p.New != nil {
 		v = p.New()
 	}
 	return v
+}
+
+// isPointer: a pointer to something that occupies memory (pointers to zero-size values all compare equal)
+func isPointer(v any) bool {
+	if v == nil {
+		return false
+	}
+	t := reflect.TypeOf(v)
+	return t.Kind() == reflect.Pointer && t.Elem().Size() > 0
 }
 
 // PoolGetY is PoolGet with a preemption point in front. It is used for the pool sites of the repository's
@@ -274,6 +297,19 @@ func PoolPut(p *sync.Pool, v any, site uint32) {
 	if s.poison && PoisonHook(v) {
 		s.Counters["pool_buffer_poisoned"]++
 	}
+	if isPointer(v) {
+		delete(s.poolOut, v)
+		// put back a second time while the pool still holds it: the next two takers get the same object,
+		// each taking it for its own (with requests in flight at the same time, whatever the object carries
+		// - a session, a context, a buffer - is shared between them)
+		for _, x := range s.pools[p] {
+			if x == v {
+				s.Counters["pool_object_put_twice"]++
+				s.failLocked("sim.pooled-object-put-twice", fmt.Sprintf("a %T was put into its sync.Pool while the pool already held it: the next two takers will work on the same object", v))
+				break
+			}
+		}
+	}
 	if s.Tape.Chance(s.cfg.PoolDropPermille) {
 		s.Counters["pool_drop"]++
 	} else {
@@ -291,6 +327,7 @@ var PoisonHook func(v any) bool
 func (s *Sim) ResetPools() {
 	s.mu.Lock()
 	s.pools = map[*sync.Pool][]any{}
+	s.poolOut = nil
 	s.mu.Unlock()
 }
 
